@@ -229,7 +229,6 @@ fn cmp_abs_with_float(t: &Dec, f: f64) -> std::cmp::Ordering {
 }
 
 fn judge_to_f64(ctx: &mut Ctx, case: &Case, t: &Dec) {
-    use std::cmp::Ordering::*;
     let b = t.bd();
     let r = ctx.guard(|| (b.to_f64(), b.to_ref().to_f64()));
     match r {
